@@ -468,7 +468,9 @@ def rule_jnz_sites(chk, prog, tier):
                 continue
             tdef = lastdef(tt, pos) if facts.unwrap_all(args[2]).get('kind') == 'DeclRefExpr' else args[2]
             tdt = _etext(tdef) if tdef is not None else None
-            ok = vdt is not None and vdt.startswith('funcexpr(f,') and tdt is not None and tdt == vdt[len('funcexpr(f,'):-1] + '->type'
+            import re as _re
+            mv = _re.match(r'^funcexpr\([^,]+,(.*)\)$', vdt or '')
+            ok = mv is not None and tdt is not None and tdt == mv.group(1) + '->type'
             r.instance(ok, key, where, 'the jump tests %s = %s but is told its type is %s = %s' % (vt, vdt, tt, tdt))
     r.exhaustive = True
 
